@@ -3,6 +3,7 @@ package rules
 import (
 	"fmt"
 	"go/ast"
+	"go/constant"
 	"go/token"
 	"go/types"
 	"strings"
@@ -331,6 +332,38 @@ func checkC19(r *core.Run, p *core.Program) {
 			"this decimal-to-integer conversion reaches "+via+": the value is rounded to the float's precision before the integer is taken, so e.g. 1e19 is stored as 10376293541461622784 without an error")
 	}
 	r.Floor("C19.no-float-detour", "decimal-to-integer conversions", nDet, 3)
+
+	// ---- negative zero: Go has no negative-zero constant
+	r.Rule("C19.negative-zero", "nowhere in the module is unary minus applied to a floating-point constant that is zero (`-zero`, `-0.0`, `-float64(0)`): Go folds it to +0, so a value meant to be negative zero (the integer -0 of a document) silently becomes positive zero; negative zero must be made at run time (math.Copysign(0, -1)).")
+	nNegConst := 0
+	for _, rel := range core.LibraryPackages {
+		if rel == "cte/parser" {
+			continue
+		}
+		pkg := p.Pkg(rel)
+		for _, f := range funcsOf(pkg) {
+			ast.Inspect(f.Decl.Body, func(n ast.Node) bool {
+				u, ok := n.(*ast.UnaryExpr)
+				if !ok || u.Op != token.SUB {
+					return true
+				}
+				tv, ok := pkg.TypesInfo.Types[u.X]
+				if !ok || tv.Value == nil {
+					return true
+				}
+				b, _ := pkg.TypesInfo.TypeOf(u).Underlying().(*types.Basic)
+				if b == nil || b.Info()&types.IsFloat == 0 {
+					return true
+				}
+				nNegConst++
+				isZero := constant.Sign(tv.Value) == 0
+				r.Check("C19.negative-zero", f.Name()+"|"+exprStr(u), u.Pos(), !isZero, "`"+exprStr(u)+"` negates a constant zero: the result is +0, not negative zero")
+				return true
+			})
+		}
+	}
+	r.Count("C19.negative-zero negated floating-point constants", nNegConst)
+	r.Pass("C19.negative-zero", "module|no negated constant zero", token.NoPos, "")
 
 	// ---- sign obligation
 	iface := p.LookupType("ce/events", "DataEventReceiver")
